@@ -111,8 +111,8 @@ theorem fBinary_error (A : Arith) (env : List Val) (op : BOp) (l r : Expr)
         by_cases hr : rawOp op = true <;> simp [hr] at h
     | _ => simp at h
 
-theorem evalB_inverse (b b' : BOp) (h : inverseB b = some b') (x y : Val) :
-    evalB b' x y = (evalB b x y).bind (evalU .not) := by
+theorem evalB_inverse (A : Arith) (b b' : BOp) (h : inverseB b = some b') (x y : Val) :
+    evalB b' x y = (evalB b x y).bind (evalU A .not) := by
   cases b <;> simp [inverseB] at h <;> subst h <;> simp [evalB, evalU]
 
 theorem eval_not_binary (A : Arith) (env : List Val) (b b' : BOp) (l r : Expr)
@@ -125,7 +125,7 @@ theorem eval_not_binary (A : Arith) (env : List Val) (b b' : BOp) (l r : Expr)
     cases eval A env r with
     | none => rfl
     | some y =>
-      simp only [evalB_inverse b b' h x y]
+      simp only [evalB_inverse A b b' h x y]
       cases evalB b x y <;> rfl
 
 theorem eval_paren (A : Arith) (env : List Val) (e : Expr) :
@@ -142,6 +142,11 @@ theorem eval_not_unwrap (A : Arith) (env : List Val) (e : Expr) :
     cases eval A env e1 <;> rfl
   · rfl
 
+/-- compile-time evaluation of the folded unary operators does not depend on the arithmetic -/
+theorem evalU_exact (A : Arith) (op : UOp) (hd : op ≠ .div) (c : Val) :
+    evalU A op c = evalU exactA op c := by
+  cases op <;> first | rfl | exact absurd rfl hd
+
 theorem fUnary_sound (A : Arith) (env : List Val) (op : UOp) (e e' : Expr)
     (h : fUnary op e = .ok e') : eval A env e' = eval A env (.unary op e) := by
   unfold fUnary at h
@@ -150,10 +155,15 @@ theorem fUnary_sound (A : Arith) (env : List Val) (op : UOp) (e e' : Expr)
     split at h
     · cases h
     · split at h
-      · rename_i v hv
-        cases h
-        simp [eval, hv]
-      · cases h
+      · rename_i hd
+        cases h; subst hd; rfl
+      · rename_i hd
+        cases hv : evalU exactA op c with
+        | none => simp [hv] at h
+        | some v =>
+          simp only [hv] at h
+          cases h
+          simp [eval, evalU_exact A op hd c, hv]
   · rename_i e0 hnc
     split at h
     · rename_i hop
